@@ -119,3 +119,87 @@ func Copy(op int, mode int) {
 	vp.Assert("stepping-a-copy-leaves-the-original-cpu-untouched", back == pre)
 	vp.Reach("end")
 }
+
+func both(name string) (*cpu65c816.CPU, *cpualt.CPU, cpuenv.Pre) {
+	pre := cpuenv.ArbitraryPre(bit("m"), bit("x"), bit("e"))
+	pre.Interrupt = vp.U8("interrupt")
+	vp.Assume(pre.Interrupt <= 3)
+	pre.Stopped = vp.Bool("stopped")
+	vp.FillBytes("mem", cpuenv.MainMem)
+	vp.FillBytes("mem", cpuenv.AltMem)
+	a, b := cpuenv.Main, cpuenv.Alt
+	pre.ToMain(a)
+	pre.ToAlt(b)
+	return a, b, pre
+}
+
+func bit(name string) uint8 {
+	if vp.Bool(name) {
+		return 1
+	}
+	return 0
+}
+
+// Trigger: the exported interrupt request acts identically on both interpreters (it is honoured
+// exactly when the I flag is clear) and touches nothing but the latch.
+func Trigger() {
+	a, b, pre := both("trigger")
+	a.TriggerIRQ()
+	b.TriggerIRQ()
+	compare(a, b, 0, 0, false, false)
+	vp.Assert("memory", vp.BytesEqual(cpuenv.MainMem, cpuenv.AltMem))
+	want := pre
+	if pre.I == 0 {
+		want.Interrupt = 3
+	}
+	vp.Assert("irq-request-sets-only-the-latch-and-only-when-not-masked", cpuenv.FromMain(a) == func() cpuenv.Pre { w := want; w.BusM = 0; return w }())
+	vp.Reach("end")
+}
+
+// Reset: both interpreters come out of Reset in the same state (vector fetched from $00:FFFC).
+func Reset() {
+	a, b, _ := both("reset")
+	f1 := vp.Try(func() { a.Reset() })
+	f2 := vp.Try(func() { b.Reset() })
+	vp.Assert("same-failure-status", f1 == f2)
+	if f1 || f2 {
+		return
+	}
+	compare(a, b, 0, 0, false, false)
+	vp.Assert("memory", vp.BytesEqual(cpuenv.MainMem, cpuenv.AltMem))
+	vp.Reach("end")
+}
+
+// Fresh: CPUs built through the public constructors (cpu65c816.New over a fresh bus.Bus with one RAM,
+// cpualt.CPU.Init plus AttachReader/AttachWriter) start in the same state and, once given the same
+// registers, execute the same step. This is the only job that runs cpualt's Init (2^21 open-bus closures).
+func Fresh(op int) {
+	vp.FillBytes("mem", cpuenv.MainMem)
+	vp.FillBytes("mem", cpuenv.AltMem)
+	a, err := cpu65c816.New(cpuenv.MainBus)
+	vp.Assert("constructor-succeeds", err == nil && a != nil)
+	b := &cpualt.CPU{}
+	b.Init()
+	b.Bus.AttachReader(0x000000, 0xFFFFFF, func(addr uint32) uint8 { return cpuenv.AltMem[addr] })
+	b.Bus.AttachWriter(0x000000, 0xFFFFFF, func(addr uint32, val uint8) { cpuenv.AltMem[addr] = val })
+	compare(a, b, 0, 0, false, false)
+	vp.Assert("fresh-cpu-is-not-stopped", !a.Stopped && !b.Stopped)
+	pre := cpuenv.ArbitraryPre(bit("m"), bit("x"), 0)
+	pre.Interrupt = 0
+	opAddr := uint32(pre.RK)<<16 | uint32(pre.PC)
+	cpuenv.MainMem[opAddr] = uint8(op)
+	cpuenv.AltMem[opAddr] = uint8(op)
+	pre.ToMain(a)
+	pre.ToAlt(b)
+	var c1, c2 int
+	var s1, s2 bool
+	p1 := vp.Try(func() { c1, s1 = a.Step() })
+	p2 := vp.Try(func() { c2, s2 = b.Step() })
+	vp.Assert("same-failure-status", p1 == p2)
+	if p1 || p2 {
+		return
+	}
+	compare(a, b, c1, c2, s1, s2)
+	vp.Assert("memory", vp.BytesEqual(cpuenv.MainMem, cpuenv.AltMem))
+	vp.Reach("end")
+}
